@@ -2,7 +2,10 @@
 
 package gpbft
 
-import "sort"
+import (
+	"bytes"
+	"sort"
+)
 
 // verifDrainOrder, when set by a deterministic simulator, chooses the relative order of the
 // per-sender groups of drained messages (which is otherwise decided by Go map iteration).
@@ -27,4 +30,46 @@ func verifOrderDrained(msgs []*GMessage) {
 		out[i] = msgs[p]
 	}
 	copy(msgs, out)
+}
+
+// verifCanonicalJustification makes "the first justification for bottom that is found" (which Go
+// map iteration order decides) a function of the map's content: among the entries carrying
+// exactly the same vote as the one found (they differ in signers and aggregate only, and the
+// caller could have found any of them first) it returns the one with the smallest encoding.
+func verifCanonicalJustification(found *Justification, all map[ECChainKey]*Justification) *Justification {
+	best, bestEnc := found, verifJustificationEncoding(found)
+	for _, j := range all {
+		best, bestEnc = verifSmaller(found, best, bestEnc, j)
+	}
+	return best
+}
+
+func verifCanonicalConvergeJustification(found *Justification, all map[ECChainKey]ConvergeValue) *Justification {
+	best, bestEnc := found, verifJustificationEncoding(found)
+	for _, v := range all {
+		best, bestEnc = verifSmaller(found, best, bestEnc, v.Justification)
+	}
+	return best
+}
+
+func verifSmaller(found, best *Justification, bestEnc []byte, j *Justification) (*Justification, []byte) {
+	if j == nil || j == best || !verifSameVote(found, j) {
+		return best, bestEnc
+	}
+	if enc := verifJustificationEncoding(j); bytes.Compare(enc, bestEnc) < 0 {
+		return j, enc
+	}
+	return best, bestEnc
+}
+
+func verifSameVote(a, b *Justification) bool {
+	return bytes.Equal(a.Vote.MarshalForSigning("verif"), b.Vote.MarshalForSigning("verif"))
+}
+
+func verifJustificationEncoding(j *Justification) []byte {
+	var buf bytes.Buffer
+	if err := j.MarshalCBOR(&buf); err != nil {
+		return nil
+	}
+	return buf.Bytes()
 }
